@@ -467,6 +467,9 @@ func (s *Sched) Run(main func()) {
 		}
 		if s.OnStep != nil {
 			s.OnStep(s)
+			if s.Aborted != "" {
+				break
+			}
 		}
 		if int(s.step.Load()) >= s.Cfg.MaxSteps {
 			s.Aborted = "steps"
